@@ -361,13 +361,14 @@ def rowG (E : RegexEngine) (K : IdentK) (d : Doc) (cols : List Str) :
       | .t => rowG E K d cols cells (i + 1) cache'
       | r => (r, cache')
 
-/-- solver.rs:723-741: every member must be true for *some* element. -/
+/-- solver.rs:723-741: every member must be true for *some* element; otherwise false (a nested
+    block over an array is never missing). -/
 def nestedAllOrG (E : RegexEngine) (K : IdentK) (objs : List (List (Str × Value))) : List Expr → Tri
   | [] => .t
   | e :: es =>
     match Tri.or (objs.map (fun kvs => solveG E K (.obj kvs) e)) with
     | .t => nestedAllOrG E K objs es
-    | r => r
+    | _ => .f
 
 /-- solver.rs:742-782: every row must be a hit for *some* element (`Passthrough` documents). -/
 def nestedAllMatrixG (E : RegexEngine) (K : IdentK) (a : List Value) (cols : List Str) :
